@@ -289,7 +289,7 @@ fn cmd_gen_front(args: &[String]) {
                         for o in v["ops"].as_array().unwrap() {
                             let id = o["o"].as_u64().unwrap_or(0) as usize;
                             match o["op"].as_str().unwrap() {
-                                "new" => { let list = strs(&o["list"]); let set = set_of_list(&list); ops.push(front::Op::New { o: id, set, list }) }
+                                "new" => { let list = strs(&o["list"]); let set = set_of_list(&list); ops.push(front::Op::New { o: id, set, list, from_file: o["from_file"].as_bool().unwrap_or(false) }) }
                                 "set" => ops.push(front::Op::Set { o: id, name: o["name"].as_str().unwrap().to_string(), arg: o["arg"].as_i64().unwrap_or(0) }),
                                 "clone" => ops.push(front::Op::Clone { o: id, ret: o["ret"].as_u64().unwrap() as usize }),
                                 _ => ops.push(front::Op::Build { o: id }),
